@@ -221,7 +221,7 @@ def fresh_cfg(maxops, nchunks, reuse, invs):
     return s
 
 
-def exec_history(pid, tpl, seed, hid, ops, keys, plen):
+def exec_history(pid, tpl, seed, hid, ops, keys, plen, lib_only=False):
     """Run one history of operations with identical inputs through the library / the CLI and
     recover everything each operation drew.  Returns the event list."""
     evs = [{"ev": "begin", "id": hid, "ops": ops}]
@@ -231,6 +231,14 @@ def exec_history(pid, tpl, seed, hid, ops, keys, plen):
         sb.write("plain.bin", bytes((i * 7 + 1) % 251 for i in range(plen)))
         locked = keys["alice"]["locked"]
         locked_pw = keys["alice"]["password"]
+        # every library-level key encryption of this history runs in ONE process, one after the other
+        # (identical inputs): randomness cached across calls within a process must show
+        lib_idx = [k for k, op in enumerate(ops) if op == "kenc" and (k % 2 == 0 or lib_only)]
+        lib_ops = []
+        for k in lib_idx:
+            reads = [[], [7, 3], [1, 1, 1], [1000, 65536, 5], [65536, 100, 65536]][(k // 2 + len(hid)) % 5]
+            lib_ops.append({"op": "kenc_draws", "kseed": 1, "rseed": 1, "plen": max(plen, 12), "reads": reads, "id": "%s.%d" % (hid, k)})
+        lib_res = dict(zip(lib_idx, cli.driver_ops(pid, tpl, lib_ops, seed, hid + "lib"))) if lib_ops else {}
         for k, op in enumerate(ops):
             tag = "%s.%d" % (hid, k)
 
@@ -239,11 +247,8 @@ def exec_history(pid, tpl, seed, hid, ops, keys, plen):
 
             def seal(key, nonce, index):
                 evs.append({"ev": "seal", "id": tag, "op": op, "key": key, "nonce": nonce, "index": index})
-            if op == "kenc" and k % 2 == 0:
-                # library call, the source delivering short reads (the chunking follows them)
-                reads = [[], [7, 3], [1, 1, 1], [1000, 65536, 5], [65536, 100, 65536]][(k // 2 + len(hid)) % 5]
-                o = cli.driver_ops(pid, tpl, [{"op": "kenc_draws", "kseed": 1, "rseed": 1, "plen": max(plen, 12), "reads": reads,
-                                               "id": tag}], seed, tag)[0]
+            if op == "kenc" and k in lib_res:
+                o = lib_res[k]
             elif op == "kenc":
                 r = cli.kestrel(["encrypt", sb.path("plain.bin"), "-t", "bob", "-f", "alice", "-o", sb.path("c%d.ktl" % k),
                                  "-k", sb.path("keyring.txt"), "--env-pass"], env={"KESTREL_PASSWORD": keys["alice"]["password"].decode()})
@@ -336,12 +341,14 @@ def c07(pid, tier, seed, selftest=False):
     hists = [r["ops"] for r in res.replays]
     # shorter histories are prefixes of these; add a few long repeated-identical ones
     hists += [["kenc"] * 6, ["penc"] * 6, ["generate"] * 5, ["generate"] + ["changepass"] * 5]
+    n_model = len(hists)
+    hists += [["kenc"] * 5, ["kenc"] * 2]       # library only, one process
     keys = cli.make_keys(pid, tpl, seed, [("alice", b"alice-pw"), ("bob", b"bob-pw")])
     all_evs = []
 
     def one(i_h):
         i, h = i_h
-        return exec_history(pid, tpl, seed, "h%d" % i, h, keys, 70000 if i % 5 == 0 else 10)
+        return exec_history(pid, tpl, seed, "h%d" % i, h, keys, 70000 if i % 5 == 0 else 10, lib_only=(i >= n_model))
     with cf.ThreadPoolExecutor(max_workers=NCPU) as ex:
         for evs in ex.map(one, list(enumerate(hists))):
             all_evs.append(evs)
@@ -390,7 +397,9 @@ def parse_layout(data, h):
 def cli_clear(pid, tpl, seed, idx, plen, mode):
     """kestrel encrypt / password encrypt with long random names; search the output."""
     rnd = random.Random(seed * 1000 + idx)
-    names = ["".join(rnd.choice("abcdefghijklmnopqrstuvwxyzABCDEFGHIJKLMNOPQRSTUVWXYZ0123456789") for _ in range(rnd.choice([12, 40, 127])))
+    # also short names (1..8 bytes fit into a counter field); for those only the cleartext positions are searched
+    nlen = [12, 3, 40, 8, 127, 5, 1][idx % 7]
+    names = ["".join(rnd.choice("abcdefghijklmnopqrstuvwxyzABCDEFGHIJKLMNOPQRSTUVWXYZ0123456789") for _ in range(nlen))
              for _ in range(2)]
     outs = []
     for ident in (0, 1):
@@ -414,7 +423,8 @@ def cli_clear(pid, tpl, seed, idx, plen, mode):
             pk = bytes.fromhex(k["pk_hex"])
             forms += [pk, base64.b64encode(pk), k["pub_enc"].encode(), base64.b64decode(k["pub_enc"]), k["pk_hex"].encode()]
         for nm in (names[0] + str(ident), names[1] + str(ident)):
-            forms += [nm.encode(), base64.b64encode(nm.encode()), nm[:12].encode()]
+            if len(nm) >= 12:
+                forms += [nm.encode(), base64.b64encode(nm.encode()), nm[:12].encode()]
         outs.append((r.rc, data, forms))
     h = 132 if mode == "key" else 36
     (rc0, d0, f0), (rc1, d1, f1) = outs
@@ -422,15 +432,23 @@ def cli_clear(pid, tpl, seed, idx, plen, mode):
     found = any(f in d for d in (d0, d1) for f in f0 + f1 if mode == "key" or f in [x for x in f0 + f1 if len(x) >= 12 and not x.startswith(b"c8")])
     if mode == "pass":
         # in password mode only the names (used as passwords here) are identities
-        found = any(nm.encode() in d or base64.b64encode(nm.encode()) in d for d in (d0, d1) for nm in names)
+        found = any(nm.encode() in d or base64.b64encode(nm.encode()) in d for d in (d0, d1) for nm in names if len(nm) >= 12)
     clear_equal = len(d0) == len(d1) and d0[:4] == d1[:4]
+    clear_bytes = d0[:4] + d1[:4]
     if clear_equal:
         off = h
         while off + 16 <= len(d0):
+            clear_bytes += d0[off:off + 16] + b"|" + d1[off:off + 16] + b"|"
             if d0[off:off + 16] != d1[off:off + 16]:
                 clear_equal = False
                 break
             off += 32 + struct.unpack(">I", d0[off + 12:off + 16])[0]
+    # short names: an occurrence inside the cleartext fields (magic, chunk headers) is no accident
+    if mode == "key":
+        for ident in (0, 1):
+            for nm in (names[0] + str(ident), names[1] + str(ident)):
+                if 2 <= len(nm) < 12 and nm.encode() in clear_bytes:
+                    found = True
     return {"ev": "clear", "id": "cli.%s.%d" % (mode, idx), "api": mode, "plen": plen, "H": h, "ok": rc0 == 0 and rc1 == 0,
             "flen": len(d0), "flen_b": len(d1), "nrec": n0, "framing_ok": fr0, "clear_equal": clear_equal, "identity_found": found}
 
@@ -474,7 +492,7 @@ def c08(pid, tier, seed, selftest=False):
     rep.sample(one[1])
     run_oneshot(rep, pid, "clear", "noise", one, tpl, seed, "Trace_Noise", nproc=16, only_prefixes=["C08_"])
     # CLI level
-    jobs = [(i, [0, 5, 70000, 131072][i % 4], "key" if i % 3 else "pass") for i in range(60 if thorough else 10)]
+    jobs = [(i, [0, 5, 70000, 131072][i % 4], "key" if i % 3 else "pass") for i in range(70 if thorough else 14)]
     with cf.ThreadPoolExecutor(max_workers=NCPU) as ex:
         evs = list(ex.map(lambda j: cli_clear(pid, tpl, seed, *j), jobs))
     wd = workdir(pid, "run-cliclear", clean=True)
